@@ -210,6 +210,21 @@ def monitor(ctx, extended=False):
             if bad:
                 ctx.violation(bad, inp, key='lowest-point-dropped' if clause == 'lowest-point-dropped' else 'gsd')
             classes.add((kind, min(g) > 0 and rel_close(g[min(g)], dl, 1e-9), len(g)))
+            if ctx.rng.random() < 0.25:
+                # the caller's own table is passed as it is (not a copy), and passed again for a smaller pipe (lower limit): it must come back
+                # untouched, and the second grading must be the one a fresh table gives
+                own = dict(pts)
+                F.create_fracs(own, p['Dp'], nu, rhol, p['rhos'])
+                if own != pts:
+                    ctx.violation(f'create_fracs edited the table it was given: {sorted(own.items())[:4]} ... instead of {sorted(pts.items())[:4]} ...', inp, key='gsd')
+                Dp2 = max(0.1, p['Dp'] * 0.45)
+                dl2 = E.dlim(Dp2, nu, rhol, p['rhos'])
+                if max(pts.values()) <= 0.5 * Dp2 and sum(1 for v_ in pts.values() if v_ > dl2) >= 2:
+                    g2 = F.create_fracs(own, Dp2, nu, rhol, p['rhos'])
+                    g2r = F.create_fracs(dict(pts), Dp2, nu, rhol, p['rhos'])
+                    if sorted(g2.items()) != sorted(g2r.items()):
+                        ctx.violation(f'the same table passed a second time (pipe {Dp2}) gives another grading than a fresh copy of it: starts at {sorted(g2.items())[0]} instead of {sorted(g2r.items())[0]}',
+                                      dict(inp, second_Dp=Dp2), key='gsd')
             if kind == '3pt':
                 s = E.make_slurry(p)
                 bad, clause = check_gsd(s.GSD, pts, dl)
